@@ -10,7 +10,7 @@
    f-string of the corresponding _key override prints (its literal prefix, e.g.
    "(scalar, " / "(var, name=", is the constructor).
    Executable definitions only. *)
-From Coq Require Import List ZArith Bool String.
+From Coq Require Import List ZArith Bool String Arith.
 Import ListNotations.
 
 (* Operations attached by the arithmetic overloads to a node with exactly two children.
@@ -45,15 +45,17 @@ Section Tree.
   Variable T : Type.
   Variable leafkey : L -> T.       (* the _key() of a leaf: one token *)
   Variable optok : string -> T.    (* operation.value as a token *)
+  Variable functok : string -> nat -> T.
+                                   (* "(function, name=.., num_args=..)" of an evaluate node *)
 
-  (* Operator._key: [self.operation.value] + [child._key() for child in children];
-     the function attached to an evaluate node and the number of its children are not
-     written. *)
+  (* Operator._key: [self.operation.value] + [child._key() for child in children]; for an
+     evaluate node the name of the function object and the number of children come right
+     after the operation name. *)
   Fixpoint key (t : tree) : list T :=
     match t with
     | Leaf l => [leafkey l]
     | Bin o a b => optok (opname o) :: key a ++ key b
-    | Eval f args => optok evaluate_name :: flat_map key args
+    | Eval f args => optok evaluate_name :: functok f (List.length args) :: flat_map key args
     end.
 
   Fixpoint eval_free (t : tree) : bool :=
@@ -67,7 +69,7 @@ End Tree.
 Arguments Leaf {L} l.
 Arguments Bin {L} o a b.
 Arguments Eval {L} f args.
-Arguments key {L T} leafkey optok t.
+Arguments key {L T} leafkey optok functok t.
 Arguments eval_free {L} t.
 
 (* ---------------------------------------------------------------------------------- *)
@@ -99,7 +101,12 @@ Inductive leaf :=
 | LVar (name : string) (dom : Z) (tidx iidx : Z)       (* Variable; private indices, -1=now  *)
 | LMdVar (name : string) (doms : list Z) (tidx iidx : Z)
 | LProj (p : proj)
-| LProjList (ps : list proj).
+| LProjList (ps : list proj)
+| LMerged (name : string) (doms : list Z) (mkey pkey : string) (ikey : option string)
+                                     (* ad_utils.MergedOperator: class name of the discretization,
+                                        domain ids, discretization_matrix_key, physics_key,
+                                        inner_physics_key (coupling terms) *)
+| LDiv (dim : Z) (doms : list Z).    (* grid_operators.Divergence *)
 
 Section Key.
   Variable digest : Type.
@@ -109,6 +116,7 @@ Section Key.
 
   Inductive token :=
   | TOp (s : string)
+  | TFunc (name : string) (nargs : nat)                (* "(function, name=, num_args=)"     *)
   | TScalar (bits : Z)                                 (* "(scalar, {value})"               *)
   | TDense (shape : list Z) (h : digest)               (* "(dense_array, shape=, hash=)"    *)
   | TSparse (ty : string) (shape : list Z) (hs : list digest)
@@ -117,7 +125,10 @@ Section Key.
   | TVar (name : string) (dom : Z) (tidx iidx : Z)
   | TMdVar (name : string) (doms : list Z) (tidx iidx : Z)
   | TProj (p : projtok)                                (* "(prolongation, ...)"             *)
-  | TProjList (ps : list projtok).                     (* "(slicing_operator_list, ...)"    *)
+  | TProjList (ps : list projtok)                      (* "(slicing_operator_list, ...)"    *)
+  | TMerged (name : string) (doms : list Z) (mkey pkey : string) (ikey : option string)
+                                                       (* "(Merged_operator, name=, ...)"   *)
+  | TDiv (dim : Z) (doms : list Z).                    (* "(divergence, dim=, subdomains=)" *)
 
   (* Projection._key: hashes of the two index arrays, domain_size, range_size, flag *)
   Definition proj_key (p : proj) : projtok :=
@@ -134,12 +145,15 @@ Section Key.
     | LMdVar n ds t i => TMdVar n ds t i
     | LProj p => TProj (proj_key p)
     | LProjList ps => TProjList (map proj_key ps)
+    | LMerged n ds mk pk ik => TMerged n ds mk pk ik   (* ", inner_physics_key=" only if not None *)
+    | LDiv d ds => TDiv d ds
     end.
 
-  Definition okey (t : tree leaf) : list token := key leaf_key TOp t.
+  Definition okey (t : tree leaf) : list token := key leaf_key TOp TFunc t.
 End Key.
 
 Arguments TOp {digest} s.
+Arguments TFunc {digest} name nargs.
 Arguments TScalar {digest} bits.
 Arguments TDense {digest} shape h.
 Arguments TSparse {digest} ty shape hs.
@@ -148,6 +162,8 @@ Arguments TVar {digest} name dom tidx iidx.
 Arguments TMdVar {digest} name doms tidx iidx.
 Arguments TProj {digest} p.
 Arguments TProjList {digest} ps.
+Arguments TMerged {digest} name doms mkey pkey ikey.
+Arguments TDiv {digest} dim doms.
 
 (* ---------------------------------------------------------------------------------- *)
 (* Execution instance for the correspondence: an ideal (injective) hash = the buffer   *)
@@ -161,8 +177,10 @@ Definition itoken_eq_dec : forall a b : itoken, {a = b} + {a <> b}.
 Proof.
   assert (forall a b : projtok buffer, {a = b} + {a <> b}) as pd.
   { intros a b. repeat decide equality; auto using Z.eq_dec, bool_dec, buffer_eq_dec. }
+  assert (forall a b : option string, {a = b} + {a <> b}) as od
+      by (decide equality; apply string_dec).
   decide equality;
-    auto using Z.eq_dec, string_dec, bool_dec, buffer_eq_dec, (list_eq_dec Z.eq_dec),
+    auto using Z.eq_dec, Nat.eq_dec, string_dec, bool_dec, buffer_eq_dec, (list_eq_dec Z.eq_dec),
       (list_eq_dec buffer_eq_dec), (list_eq_dec pd).
 Defined.
 
